@@ -64,6 +64,9 @@ func (sc *samplingCoordinator) run(ctx context.Context, cp checkpoint) {
 	for _, wk := range cp.Workers {
 		sc.runWorker(ctx, sc.state.newJob(wk.JobType, wk.From, wk.To))
 	}
+	// the checkpoint may leave nothing to do: catch-up is done right away, not only after the
+	// next head or result
+	sc.state.checkDone()
 
 	for {
 		for !sc.concurrencyLimitReached() {
